@@ -445,7 +445,16 @@ func closesParams(w *core.World, f *core.FuncInfo) map[int]bool {
 	out := map[int]bool{}
 	ps := paramObjs(f)
 	for i, p := range ps {
-		if !strings.HasPrefix(p.Type().String(), "*database/sql.") {
+		// a database/sql handle, or an interface with a Close method (io.Closer) the handle is passed as
+		isCloser := strings.HasPrefix(p.Type().String(), "*database/sql.")
+		if it, ok := p.Type().Underlying().(*types.Interface); ok {
+			for j := 0; j < it.NumMethods(); j++ {
+				if it.Method(j).Name() == "Close" {
+					isCloser = true
+				}
+			}
+		}
+		if !isCloser {
 			continue
 		}
 		sp := &flow.Spec{W: w, Classify: func(pkg *packages.Package, call *ast.CallExpr, callee *types.Func) []flow.Tag {
